@@ -355,10 +355,20 @@ class Ctx:
         (the attribute itself is left alone), by setattr (restored by the runner) in native mode"""
         orig = getattr(owner, name)
         if self.mode == 'sym':
-            self.I.stubs[orig] = repl
-        else:
-            self._patched.append((owner, name, orig))
-            setattr(owner, name, repl)
+            try:
+                self.I.stubs[orig] = repl
+            except TypeError:
+                pass
+        # also patch for real, so that code reached natively (concrete arguments) sees the stub too
+        self._patched.append((owner, name, orig))
+        setattr(owner, name, repl)
+
+    def force(self, *funcs):
+        """always interpret these functions (they read symbolic data from stubs, not from arguments)"""
+        if self.mode == 'sym':
+            for f in funcs:
+                f = getattr(f, '__func__', f)
+                self.I.force.add(f.__code__)
 
     def cleanup(self):
         for owner, name, orig in reversed(getattr(self, '_patched', [])):
